@@ -389,8 +389,273 @@ fn run_case(r: &mut Rng, dir: PathBuf, dist: &mut Dist, steps: usize, n: u64) ->
     finish(&k, run, mp, dist, "")
 }
 
+
+// ------------------------------------------------------------------ schedules with log compaction (oracle only)
+#[derive(Clone, Debug)]
+enum COp {
+    Elect(u64),
+    Heartbeat(u64),
+    Propose(u64),
+    /// deliver the most recent pool message of that kind from src to dst
+    Last(u64, u64, &'static str),
+    /// deliver pool message number k
+    Deliver(u64),
+    Restart(u64),
+    /// the application finalizes what the node has committed, minus `back` entries
+    Finalize(u64, u64),
+    /// create_snapshot + truncate_log, as perform_compaction does
+    Compact(u64),
+}
+
+/// Runs one schedule with finalize/compact steps on real nodes; returns the Gallina term
+/// (n, [(touched, observation)]), a readable form, and whether some node really dropped a log prefix.
+fn run_compact(script: &[COp], trailing: usize, dir: PathBuf, dist: &mut Dist, tag: &str) -> (String, String, bool) {
+    let mut cfg = RaftConfig::default();
+    cfg.enable_pre_vote = false;
+    cfg.enable_fast_path = false;
+    cfg.enable_geometric_tiebreak = false;
+    cfg.auto_heartbeat = false;
+    cfg.election_timeout = (0, 0);
+    cfg.snapshot_trailing_logs = trailing;
+    let n = 3u64;
+    let mut sim = Sim::new(n, cfg, dir);
+    let mut obs: Vec<String> = vec![];
+    let mut human: Vec<String> = vec![];
+    let mut payload = 0u64;
+    let mut compacted = false;
+    for op in script {
+        let touched: u64 = match op {
+            COp::Elect(i) => { let _ = sim.rt.block_on(sim.nodes[*i as usize].start_election_async()); human.push(format!("elect({i})")); *i }
+            COp::Heartbeat(i) => { let _ = sim.rt.block_on(sim.nodes[*i as usize].send_heartbeats()); human.push(format!("heartbeat({i})")); *i }
+            COp::Propose(i) => { payload += 1; let _ = sim.nodes[*i as usize].propose(block(payload)); human.push(format!("propose({i},{payload})")); *i }
+            COp::Restart(i) => { let (nd, o) = sim.mk_node(*i); sim.nodes[*i as usize] = nd; sim.outs[*i as usize] = o; human.push(format!("restart({i})")); *i }
+            COp::Finalize(i, back) => {
+                let c = sim.nodes[*i as usize].commit_index().saturating_sub(*back);
+                let _ = sim.nodes[*i as usize].finalize_to(c);
+                human.push(format!("finalize({i},{c})"));
+                *i
+            }
+            COp::Compact(i) => {
+                let before = sim.nodes[*i as usize].verif_log_image().first().map(|e| e.0);
+                if let Ok((meta, _)) = sim.nodes[*i as usize].create_snapshot() {
+                    let _ = sim.nodes[*i as usize].truncate_log(&meta);
+                }
+                let after = sim.nodes[*i as usize].verif_log_image().first().map(|e| e.0);
+                if before != after { compacted = true; dist.hit("compact.dropped_prefix"); } else { dist.hit("compact.noop"); }
+                human.push(format!("compact({i})"));
+                *i
+            }
+            COp::Last(..) | COp::Deliver(_) => {
+                let pick = match op {
+                    COp::Last(src, dst, kind) => sim.pool.iter().enumerate().rev().find(|(_, (s0, d0, m))| s0 == src && d0 == dst && kind_of(m) == *kind).map(|(ix, _)| ix),
+                    COp::Deliver(k) => if (*k as usize) < sim.pool.len() { Some(*k as usize) } else { None },
+                    _ => None,
+                };
+                let Some(ix) = pick else { continue };
+                let (src, dst, m) = sim.pool[ix].clone();
+                if let Some(r) = sim.nodes[dst as usize].handle_message(&name(src), &m) { sim.outs[dst as usize].lock().push((name(src), r)); }
+                human.push(format!("deliver#{ix}({src}->{dst} {})", kind_of(&m)));
+                dst
+            }
+        };
+        sim.drain(touched);
+        obs.push(format!("({touched}, {})", sim.obs(touched)));
+    }
+    dist.hit(if compacted { "compact.case.with_compaction" } else { "compact.case.without" });
+    (format!("({n}, {})", list(obs.into_iter())), format!("{tag}trailing={trailing} {}", human.join("; ")), compacted)
+}
+
+fn compact_corpus() -> Vec<(&'static str, usize, Vec<COp>)> {
+    use COp::*;
+    let elect = |c: u64, v: u64| vec![Elect(c), Last(c, v, "RV"), Last(v, c, "RVR")];
+    let rep = |l: u64, f: u64| vec![Heartbeat(l), Last(l, f, "AE"), Last(f, l, "AER")];
+    // (1) F-C01-gap: the leader compacts entries a follower never received; the follower must not store entry 6 first
+    let mut s1 = elect(0, 1);
+    s1.extend(rep(0, 1));
+    s1.extend((0..6).map(|_| Propose(0)));
+    s1.extend(rep(0, 1)); s1.extend(rep(0, 1));
+    s1.extend(elect(1, 0));
+    s1.extend(vec![Finalize(1, 1), Compact(1)]);
+    for _ in 0..4 { s1.extend(rep(1, 2)); }
+    // (2) F-C01-prev: a follower whose log diverges below the leader's compaction point
+    let mut s2 = elect(0, 1);
+    s2.extend(rep(0, 1));
+    s2.extend((0..4).map(|_| Propose(0)));
+    s2.extend(vec![Heartbeat(0), Last(0, 1, "AE"), Last(1, 0, "AER"), Last(0, 2, "AE"), Last(2, 0, "AER")]);
+    s2.push(Propose(0)); // 5' stays on node 0 alone
+    s2.extend(elect(1, 2));
+    s2.extend(rep(1, 2));
+    s2.extend(vec![Propose(1), Propose(1)]);
+    s2.extend(rep(1, 2)); s2.extend(rep(1, 2));
+    s2.extend(elect(2, 1));
+    s2.extend(vec![Finalize(2, 1), Compact(2)]);
+    for _ in 0..4 { s2.extend(rep(2, 0)); }
+    // (3) compaction with trailing entries, then normal replication and a restart
+    let mut s3 = elect(0, 1);
+    s3.extend(rep(0, 1));
+    s3.extend((0..5).map(|_| Propose(0)));
+    s3.extend(rep(0, 1)); s3.extend(rep(0, 1)); s3.extend(rep(0, 2)); s3.extend(rep(0, 2));
+    s3.extend(vec![Finalize(0, 0), Compact(0), Finalize(1, 0), Compact(1), Propose(0)]);
+    s3.extend(rep(0, 1)); s3.extend(rep(0, 2)); s3.extend(vec![Restart(1)]); s3.extend(rep(0, 1)); s3.extend(rep(0, 1));
+    vec![("corpus lagging-follower-behind-compaction: ", 0, s1), ("corpus divergent-follower-behind-compaction: ", 0, s2), ("corpus compaction-with-trailing: ", 2, s3)]
+}
+
+fn random_compact(r: &mut Rng) -> (usize, Vec<COp>) {
+    use COp::*;
+    let trailing = *r.pick(&[0usize, 0, 1, 2]);
+    // a warm-up that usually yields a leader with committed entries (so that compaction has something to drop),
+    // one follower possibly left behind; then a random tail
+    let l = r.below(3);
+    let f = (l + 1 + r.below(2)) % 3;
+    let g = 3 - l - f;
+    let mut s = vec![Elect(l), Last(l, f, "RV"), Last(f, l, "RVR"), Heartbeat(l), Last(l, f, "AE"), Last(f, l, "AER")];
+    for _ in 0..r.range(2, 7) { s.push(Propose(l)); }
+    for _ in 0..2 { s.extend(vec![Heartbeat(l), Last(l, f, "AE"), Last(f, l, "AER")]); }
+    if r.chance(1, 2) { s.extend(vec![Last(l, g, "AE"), Last(g, l, "AER")]); }
+    if r.chance(1, 3) { s.push(Propose(l)); }
+    let steps = r.range(30, 100);
+    let mut pool_guess = 12u64;
+    for _ in 0..steps {
+        let any = r.below(3);
+        let d = r.below(100);
+        let op = if d < 10 { Elect(any) } else if d < 26 { Propose(any) } else if d < 44 { Heartbeat(any) }
+                 else if d < 54 { Finalize(any, r.below(3)) } else if d < 64 { Compact(any) } else if d < 67 { Restart(any) }
+                 else if d < 90 {
+                     let (a, b) = (r.below(3), r.below(3));
+                     Last(a, b, *r.pick(&["AE", "AER", "RV", "RVR", "AE", "AER"]))
+                 } else { Deliver(r.below(pool_guess + 1)) };
+        if matches!(op, Elect(_) | Heartbeat(_)) { pool_guess += 2; }
+        s.push(op);
+    }
+    (trailing, s)
+}
+
+/// exploratory probe (NV_C01_PROBE=compact): log compaction on the leader followed by replication to a
+/// follower that is behind the compaction point.  Prints what the real nodes do.
+fn probe_compact(out: &std::path::Path) {
+    let mut cfg = RaftConfig::default();
+    cfg.enable_pre_vote = false;
+    cfg.enable_fast_path = false;
+    cfg.enable_geometric_tiebreak = false;
+    cfg.auto_heartbeat = false;
+    cfg.election_timeout = (0, 0);
+    cfg.snapshot_threshold = 2;
+    cfg.snapshot_trailing_logs = 0;
+    cfg.compaction_check_interval = 1;
+    cfg.compaction_cooldown_ms = 0;
+    let mut sim = Sim::new(3, cfg, out.join("probe_wal"));
+    let show = |sim: &Sim, tag: &str| {
+        for i in 0..3u64 { eprintln!("  [{tag}] n{i}: {}", sim.obs(i)); }
+    };
+    let deliver_last = |sim: &mut Sim, src: u64, dst: u64, kind: &str| -> bool {
+        let ix = sim.pool.iter().enumerate().rev().find(|(_, (s0, d0, m))| *s0 == src && *d0 == dst && kind_of(m) == kind).map(|(i, _)| i);
+        match ix {
+            Some(ix) => {
+                let (s0, d0, m) = sim.pool[ix].clone();
+                eprintln!("  deliver {} {}->{}: {}", kind, s0, d0, msg_coq(&m).unwrap_or_default());
+                if let Some(r) = sim.nodes[d0 as usize].handle_message(&name(s0), &m) { sim.outs[d0 as usize].lock().push((name(s0), r)); }
+                sim.drain(d0);
+                true
+            }
+            None => { eprintln!("  (no {kind} {src}->{dst})"); false }
+        }
+    };
+    // leader 0, term 1
+    let _ = sim.rt.block_on(sim.nodes[0].start_election_async()); sim.drain(0);
+    deliver_last(&mut sim, 0, 1, "RV"); deliver_last(&mut sim, 1, 0, "RVR");
+    let _ = sim.rt.block_on(sim.nodes[0].send_heartbeats()); sim.drain(0);
+    deliver_last(&mut sim, 0, 1, "AE"); deliver_last(&mut sim, 1, 0, "AER");
+    for p in 1..=6u64 { eprintln!("  propose {p}: {:?}", sim.nodes[0].propose(block(p)).is_ok()); }
+    let _ = sim.rt.block_on(sim.nodes[0].send_heartbeats()); sim.drain(0);
+    deliver_last(&mut sim, 0, 1, "AE"); deliver_last(&mut sim, 1, 0, "AER");
+    let _ = sim.rt.block_on(sim.nodes[0].send_heartbeats()); sim.drain(0);
+    deliver_last(&mut sim, 0, 1, "AE"); deliver_last(&mut sim, 1, 0, "AER");
+    show(&sim, "replicated to n1, n2 saw nothing");
+    // node 1 becomes leader of term 2 with node 0's vote
+    let _ = sim.rt.block_on(sim.nodes[1].start_election_async()); sim.drain(1);
+    deliver_last(&mut sim, 1, 0, "RV"); deliver_last(&mut sim, 0, 1, "RVR");
+    show(&sim, "n1 leader");
+    // the application finalizes 5 entries on the leader; the leader compacts
+    eprintln!("  finalize_to(5) on n1: {:?}", sim.nodes[1].finalize_to(5).is_ok());
+    match sim.nodes[1].create_snapshot() {
+        Ok((meta, _data)) => eprintln!("  truncate_log on n1: {:?}", sim.nodes[1].truncate_log(&meta).is_ok()),
+        Err(e) => eprintln!("  create_snapshot failed: {e}"),
+    }
+    show(&sim, "n1 compacted");
+    for round in 0..4 {
+        let _ = sim.rt.block_on(sim.nodes[1].send_heartbeats()); sim.drain(1);
+        deliver_last(&mut sim, 1, 2, "AE"); deliver_last(&mut sim, 2, 1, "AER");
+        show(&sim, &format!("round {round}"));
+    }
+}
+
+/// exploratory probe (NV_C01_PROBE=compact2): a follower whose log DIVERGES below the leader's compaction point
+fn probe_compact2(out: &std::path::Path) {
+    let mut cfg = RaftConfig::default();
+    cfg.enable_pre_vote = false;
+    cfg.enable_fast_path = false;
+    cfg.enable_geometric_tiebreak = false;
+    cfg.auto_heartbeat = false;
+    cfg.election_timeout = (0, 0);
+    cfg.snapshot_trailing_logs = 0;
+    let mut sim = Sim::new(3, cfg, out.join("probe_wal2"));
+    let show = |sim: &Sim, tag: &str| { for i in 0..3u64 { eprintln!("  [{tag}] n{i}: {}", sim.obs(i)); } };
+    let dl = |sim: &mut Sim, src: u64, dst: u64, kind: &str| -> bool {
+        let ix = sim.pool.iter().enumerate().rev().find(|(_, (s0, d0, m))| *s0 == src && *d0 == dst && kind_of(m) == kind).map(|(i, _)| i);
+        match ix {
+            Some(ix) => {
+                let (s0, d0, m) = sim.pool[ix].clone();
+                eprintln!("  deliver {} {}->{}: {}", kind, s0, d0, msg_coq(&m).unwrap_or_default());
+                if let Some(r) = sim.nodes[d0 as usize].handle_message(&name(s0), &m) { sim.outs[d0 as usize].lock().push((name(s0), r)); }
+                sim.drain(d0);
+                true
+            }
+            None => { eprintln!("  (no {kind} {src}->{dst})"); false }
+        }
+    };
+    let hb = |sim: &mut Sim, l: u64| { let _ = sim.rt.block_on(sim.nodes[l as usize].send_heartbeats()); sim.drain(l); };
+    // n0 leader of term 1; entries 1..4 on everyone, committed
+    let _ = sim.rt.block_on(sim.nodes[0].start_election_async()); sim.drain(0);
+    dl(&mut sim, 0, 1, "RV"); dl(&mut sim, 1, 0, "RVR");
+    hb(&mut sim, 0); dl(&mut sim, 0, 1, "AE"); dl(&mut sim, 1, 0, "AER");
+    for p in 1..=4u64 { let _ = sim.nodes[0].propose(block(p)); }
+    hb(&mut sim, 0); dl(&mut sim, 0, 1, "AE"); dl(&mut sim, 1, 0, "AER"); dl(&mut sim, 0, 2, "AE"); dl(&mut sim, 2, 0, "AER");
+    // n0 appends 5' (term 1) that nobody else gets
+    let _ = sim.nodes[0].propose(block(50));
+    show(&sim, "n0 has 5' alone");
+    // n1 leader of term 2 (vote of n2), appends 5 and 6, replicates to n2, commits
+    let _ = sim.rt.block_on(sim.nodes[1].start_election_async()); sim.drain(1);
+    dl(&mut sim, 1, 2, "RV"); dl(&mut sim, 2, 1, "RVR");
+    hb(&mut sim, 1); dl(&mut sim, 1, 2, "AE"); dl(&mut sim, 2, 1, "AER");
+    let _ = sim.nodes[1].propose(block(5)); let _ = sim.nodes[1].propose(block(6));
+    hb(&mut sim, 1); dl(&mut sim, 1, 2, "AE"); dl(&mut sim, 2, 1, "AER");
+    hb(&mut sim, 1); dl(&mut sim, 1, 2, "AE"); dl(&mut sim, 2, 1, "AER");
+    show(&sim, "n1 committed 6");
+    // n2 leader of term 3 (vote of n1): next_index[n0] = 7; it finalizes and compacts 1..5
+    let _ = sim.rt.block_on(sim.nodes[2].start_election_async()); sim.drain(2);
+    dl(&mut sim, 2, 1, "RV"); dl(&mut sim, 1, 2, "RVR");
+    eprintln!("  finalize_to(5) on n2: {:?}", sim.nodes[2].finalize_to(5).is_ok());
+    match sim.nodes[2].create_snapshot() {
+        Ok((meta, _)) => eprintln!("  truncate_log on n2: {:?}", sim.nodes[2].truncate_log(&meta).is_ok()),
+        Err(e) => eprintln!("  create_snapshot failed: {e}"),
+    }
+    show(&sim, "n2 leader, compacted");
+    for round in 0..4 {
+        hb(&mut sim, 2); dl(&mut sim, 2, 0, "AE"); dl(&mut sim, 0, 2, "AER");
+        show(&sim, &format!("round {round}"));
+    }
+}
+
 fn main() {
     let args = Args::parse();
+    if std::env::var("NV_C01_PROBE").as_deref() == Ok("compact") {
+        probe_compact(&args.out);
+        return;
+    }
+    if std::env::var("NV_C01_PROBE").as_deref() == Ok("compact2") {
+        probe_compact2(&args.out);
+        return;
+    }
     quiet_panics();
     let mut rng = Rng::new(args.seed);
     let mut dist = Dist::default();
@@ -481,13 +746,28 @@ fn main() {
         let _ = std::fs::remove_dir_all(&dir);
         w.push(&t, &h, nt);
     }
+    // schedules with finalize / compact steps: safety oracles by entry index on the implementation's observations
+    let mut wc = CaseWriter::new(&args.out, "compact");
+    for (ci, (tag, trailing, script)) in compact_corpus().into_iter().enumerate() {
+        let dir = args.out.join("wal").join(format!("cc{ci}"));
+        let (t, h, nt) = run_compact(&script, trailing, dir.clone(), &mut dist, tag);
+        let _ = std::fs::remove_dir_all(&dir);
+        wc.push(&t, &h, nt);
+    }
+    for c in 0..args.budget(60, 2000) {
+        let (trailing, script) = random_compact(&mut rng);
+        let dir = args.out.join("wal").join(format!("cr{c}"));
+        let (t, h, nt) = run_compact(&script, trailing, dir.clone(), &mut dist, "");
+        let _ = std::fs::remove_dir_all(&dir);
+        wc.push(&t, &h, nt);
+    }
     write_meta(
         &args.out,
         json!({
             "property": "C01", "seed": args.seed, "tier": args.tier,
-            "kinds": [w.summary()],
+            "kinds": [w.summary(), wc.summary()],
             "distribution": dist.json(),
-            "nontrivial_rule": "a schedule is non-trivial when some node was observed as Leader during it",
+            "nontrivial_rule": "sched: some node was observed as Leader during the schedule; compact: some node really dropped a prefix of its log during the schedule",
         }),
     );
 }
